@@ -117,8 +117,9 @@ def build(name, leaf_failfast):
     return b
 
 
-def make_test(i, outcome, kind, stop_hook=None):
+def make_test(i, outcome, kind, stop_hook=None, tid=None):
     import testtools
+    tid = tid or "t%d" % i
     name = {"success": "addSuccess", "failure": "addFailure", "error": "addError", "skip": "addSkip",
             "xfail": "addExpectedFailure", "uxsuccess": "addUnexpectedSuccess"}[outcome]
     if kind == "placeholder" and stop_hook is None:
@@ -127,7 +128,7 @@ def make_test(i, outcome, kind, stop_hook=None):
             details = {"traceback": testtools.content.text_content("tb %d" % i)}
         if outcome == "skip":
             details = {"reason": testtools.content.text_content("because")}
-        return testtools.PlaceHolder("t%d" % i, outcome=name, details=details)
+        return testtools.PlaceHolder(tid, outcome=name, details=details)
 
     class T(testtools.TestCase):
         def test(self):
@@ -145,7 +146,7 @@ def make_test(i, outcome, kind, stop_hook=None):
                 self.expectFailure("u%d" % i, self.assertEqual, 1, 1)
 
         def id(self):
-            return "t%d" % i
+            return tid
     return T("test")
 
 
@@ -169,12 +170,17 @@ def x_hist(ctx, case):
         stop_called = False
         mode = seg.get("mode", "direct")
         tests = []
+        ids = []
         for k, outcome in enumerate(seg["tests"]):
             i += 1
             hook = None
             if seg.get("stop_at") == k:
                 hook = top.stop
-            tests.append((outcome, make_test(i, outcome, seg["kinds"][k], hook)))
+            tid = None
+            if seg.get("dup_ids") and k in seg["dup_ids"]:
+                tid = "t%d" % (i - 1 - seg["dup_ids"].index(k))  # same id as an earlier test of this run
+            ids.append(tid or "t%d" % i)
+            tests.append((outcome, make_test(i, outcome, seg["kinds"][k], hook, tid)))
 
         def after(outcome, k):
             nonlocal bad_seen, stop_called, nontrivial
@@ -253,8 +259,7 @@ def x_hist(ctx, case):
             found = sorted(re.findall(r"^(ERROR|FAIL|UNEXPECTED SUCCESS): (\S+)$", text, re.M))
             sections = len(found)
             label = {"error": "ERROR", "failure": "FAIL", "uxsuccess": "UNEXPECTED SUCCESS"}
-            first_id = i - len(tests) + 1
-            want_sections = sorted((label[o], "t%d" % (first_id + k2))
+            want_sections = sorted((label[o], ids[k2])
                                    for k2, o in enumerate(seg["tests"][:n_run]) if o in BAD)
             ok = ok and found == want_sections
             ctx.check(ok, "text.summary-agrees",
@@ -337,6 +342,8 @@ def random_segment(rng):
            "mode": rng.choice(["direct", "suite"])}
     if n and rng.random() < 0.25:
         seg["stop_at"] = rng.randrange(n)
+    if n >= 2 and rng.random() < 0.2:
+        seg["dup_ids"] = [rng.randrange(1, n)]  # a test loaded twice / re-run under the same id
     return seg
 
 
